@@ -46,6 +46,12 @@ theorem listBandIds_ro : Prog.AllOps RO listBandIds := by
   simp only [Prog.bind_def, Prog.pure_def]
   repeat allops_step
 
+/-- The second look at the lock issues one read-only operation (`listDir` of the root). -/
+theorem gcLockListed_ro : Prog.AllOps RO gcLockListed := by
+  unfold gcLockListed
+  simp only [Prog.bind_def, Prog.pure_def]
+  repeat allops_step
+
 theorem lastBandId_ro : Prog.AllOps RO lastBandId := by
   unfold lastBandId
   simp only [Prog.bind_def, Prog.pure_def]
